@@ -4,6 +4,8 @@
 cd "$(dirname "$0")/.."
 for d in seeded/${1:-*}/; do
   s=$(basename "$d")
+  neutralised=$(python3 -c "import json;print(json.load(open('$d/meta.json')).get('neutralised_by_fix',''))")
+  if [ -n "$neutralised" ]; then echo "$s NEUTRALISED by fix $neutralised (no longer breaks the property on the repaired tree; see meta.json)"; continue; fi
   ids=$(python3 -c "import json;print(' '.join(json.load(open('$d/meta.json'))['detected_by_quick_checks']))")
   out=$(tools/seedtest.sh "$PWD/$d/patch.diff" quick $ids 2>&1)
   if echo "$out" | grep -q "patch does not apply"; then echo "$s PATCH-DOES-NOT-APPLY"; continue; fi
